@@ -44,6 +44,7 @@ def run_acceptor(traces, verdict, pid, max_report=3, exe=None):
         idx[str(n)] = (sc, r, lines)
     rc, out = vlib.sh([modelrun], inp="\n".join(inp) + "\n", timeout=900)
     acc = rej = 0
+    accepted = set()
     reasons = {}
     unrepro = {}
     for l in out.splitlines():
@@ -52,6 +53,7 @@ def run_acceptor(traces, verdict, pid, max_report=3, exe=None):
             continue
         if f[0] == "ACCEPT":
             acc += 1
+            accepted.add(f[1])
         elif f[0] == "REJECT":
             rej += 1
             sc, r, lines = idx.get(f[1], (None, None, None))
@@ -71,7 +73,9 @@ def run_acceptor(traces, verdict, pid, max_report=3, exe=None):
     cmp_n = cmp_bad = 0
     for l in out.splitlines():
         f = l.split("\t")
-        if len(f) < 6 or f[0] != "STATE" or f[1] not in idx:
+        # only the final state of an ACCEPTed trace is comparable with the store (a rejected trace's state is the one
+        # before the rejected event; the driver tags those lines RSTATE)
+        if len(f) < 6 or f[0] != "STATE" or f[1] not in idx or f[1] not in accepted:
             continue
         sc, r, lines = idx[f[1]]
         audit = r.get("audit") or r.get("audit_pre") or {}
